@@ -683,3 +683,66 @@ impl<'a> VGen<'a> {
         }
     }
 }
+
+// ------------------------------------------------------------------------------------------------
+// helpers of the deterministic boundary families (c22 / c23)
+// ------------------------------------------------------------------------------------------------
+pub fn ik_kind(ik: IK) -> SK {
+    match ik {
+        IK::I8 => TypeKind::I8, IK::I16 => TypeKind::I16, IK::I32 => TypeKind::I32, IK::I64 => TypeKind::I64, IK::I128 => TypeKind::I128,
+        IK::U8 => TypeKind::U8, IK::U16 => TypeKind::U16, IK::U32 => TypeKind::U32, IK::U64 => TypeKind::U64, IK::U128 => TypeKind::U128,
+    }
+}
+pub fn tmin(ik: IK) -> Z {
+    if ik.signed() { Z::S(if ik.bits() == 128 { i128::MIN } else { -(1i128 << (ik.bits() - 1)) }) } else { Z::U(0) }
+}
+pub fn tmax(ik: IK) -> Z {
+    if ik.signed() { Z::S(if ik.bits() == 128 { i128::MAX } else { (1i128 << (ik.bits() - 1)) - 1 }) }
+    else { Z::U(if ik.bits() == 128 { u128::MAX } else { (1u128 << ik.bits()) - 1 }) }
+}
+pub fn zadd(z: Z, d: i128) -> Z {
+    match z {
+        Z::S(x) => Z::S(x + d),
+        Z::U(x) => Z::U(if d >= 0 { x + d as u128 } else { x - (-d) as u128 }),
+    }
+}
+pub fn zle(a: Z, b: Z) -> bool {
+    match (a, b) {
+        (Z::S(x), Z::S(y)) => x <= y,
+        (Z::U(x), Z::U(y)) => x <= y,
+        _ => unreachable!(),
+    }
+}
+pub fn num_val(ik: IK, min: Option<Z>, max: Option<Z>) -> SV {
+    macro_rules! nv { ($t:ty, $v:ident) => {{
+        let c = |z: Z| -> $t { match z { Z::S(x) => x as $t, Z::U(x) => x as $t } };
+        TypeValidation::$v(NumericValidation { min: min.map(c), max: max.map(c) })
+    }}; }
+    match ik {
+        IK::I8 => nv!(i8, I8), IK::I16 => nv!(i16, I16), IK::I32 => nv!(i32, I32), IK::I64 => nv!(i64, I64), IK::I128 => nv!(i128, I128),
+        IK::U8 => nv!(u8, U8), IK::U16 => nv!(u16, U16), IK::U32 => nv!(u32, U32), IK::U64 => nv!(u64, U64), IK::U128 => nv!(u128, U128),
+    }
+}
+pub fn lenv(min: Option<u32>, max: Option<u32>) -> LengthValidation {
+    LengthValidation { min, max }
+}
+pub fn node(b: u8) -> [u8; 30] {
+    let mut n = [0x11u8; 30];
+    n[0] = b;
+    n
+}
+/// representative entity bytes: one per class of the static custom validation predicates
+pub fn rep_entity_bytes() -> Vec<u8> {
+    let all: Vec<u8> = (0u16..=255).map(|b| b as u8).collect();
+    let f = |p: &dyn Fn(&NodeId) -> bool| all.iter().copied().find(|b| p(&NodeId(node(*b))));
+    let mut v = vec![];
+    v.extend(f(&|n| n.is_global_package()));
+    v.extend(f(&|n| n.is_global_component() && !n.is_global_package()));
+    v.extend(f(&|n| n.is_global_resource_manager()));
+    v.extend(f(&|n| n.is_global() && !n.is_global_package() && !n.is_global_component() && !n.is_global_resource_manager()));
+    v.extend(f(&|n| n.is_internal_vault()));
+    v.extend(f(&|n| n.is_internal_kv_store()));
+    v.extend(f(&|n| n.is_internal() && !n.is_internal_vault() && !n.is_internal_kv_store()));
+    v.extend(f(&|n| n.entity_type().is_none()));
+    v
+}
